@@ -83,7 +83,7 @@ def check(run, tier):
                 if callee is not None and callee.get("local") and "inst" in callee:
                     ci = f.instances[callee["inst"]]
                     ins, out = sig(f, ci)
-                    if out == "core::result::Result<(), tz::error::TzError>" and len(ins) == 1 and ins[0].startswith("&tz::timezone::TimeZoneRef"):
+                    if out == "core::result::Result<(), tz::error::TzError>" and len(ins) == 1 and ins[0].lstrip("&").startswith("tz::timezone::TimeZoneRef"):
                         vcalls.append((bi, ci))
                     elif ci["id"] in gated:
                         # validating through the other constructor: its Ok implies its validator's Ok
@@ -91,7 +91,7 @@ def check(run, tier):
             ok = len(vcalls) >= 1 and len({c["id"] for _, c in vcalls}) == 1
             run.obligation(ok)
             if not ok:
-                run.finding("GATE", "%s|%s|validator-call" % (cfg, r), "%s does not call exactly one validator of type (&TimeZoneRef) -> Result<(), TzError> (found %d)" % (r, len(vcalls)), insts[r].get("span"))
+                run.finding("GATE", "%s|%s|validator-call" % (cfg, r), "%s does not call exactly one validator of type (&TimeZoneRef | TimeZoneRef) -> Result<(), TzError> (found %d)" % (r, len(vcalls)), insts[r].get("span"))
                 continue
             validators[r] = vcalls[0][1]
             succ = []
@@ -146,7 +146,8 @@ def check(run, tier):
                 if ev == "enter" and kw["inst"]["id"] == V["id"] and "recv" not in seen:
                     a0 = kw["args"][0]
                     I_ = kw["interp"]
-                    st = I_.read(kw["state"], a0.cell, a0.path, ("gate",)) if isinstance(a0, Ref) and a0.cell is not None else None
+                    # the validator takes the borrowed zone by reference or (it is Copy) by value
+                    st = I_.read(kw["state"], a0.cell, a0.path, ("gate",)) if isinstance(a0, Ref) and a0.cell is not None else (a0 if isinstance(a0, Struct) else None)
                     seen["recv"] = st
                     # what each field of the receiver points to, at the moment the validator starts
                     if isinstance(st, Struct):
